@@ -8,6 +8,7 @@ package zzchan
 import (
 	"context"
 	"sync"
+	"time"
 )
 
 // Unbuffered: producer / consumer rendezvous; the consumer reads what the producer wrote before sending.
@@ -220,4 +221,62 @@ func (q *Queue) Get() int {
 	q.notFull.Broadcast()
 	q.mu.Unlock()
 	return v
+}
+
+// Timeout: wait for work or for a deadline.
+func Timeout(work <-chan int, d time.Duration) (int, bool) {
+	select {
+	case v := <-work:
+		return v, true
+	case <-time.After(d):
+		return 0, false
+	}
+}
+
+// Backoff: waits implemented with a timer instead of time.Sleep.
+func Backoff(n int, base time.Duration) time.Duration {
+	start := time.Now()
+	d := base
+	for i := 0; i < n; i++ {
+		t := time.NewTimer(d)
+		<-t.C
+		d *= 2
+	}
+	return time.Since(start)
+}
+
+// Janitor: a background goroutine woken by a ticker until it is stopped.
+type Janitor struct {
+	mu    sync.Mutex
+	ticks int
+	stop  chan struct{}
+	done  chan struct{}
+}
+
+func StartJanitor(every time.Duration) *Janitor {
+	j := &Janitor{stop: make(chan struct{}), done: make(chan struct{})}
+	tk := time.NewTicker(every)
+	go func() {
+		defer close(j.done)
+		defer tk.Stop()
+		for {
+			select {
+			case <-tk.C:
+				j.mu.Lock()
+				j.ticks++
+				j.mu.Unlock()
+			case <-j.stop:
+				return
+			}
+		}
+	}()
+	return j
+}
+
+func (j *Janitor) Stop() int {
+	close(j.stop)
+	<-j.done
+	j.mu.Lock()
+	defer j.mu.Unlock()
+	return j.ticks
 }
